@@ -399,14 +399,23 @@ class StreamReader:
         while not_enough:
             while self._buffer and not_enough:
                 offset = self._buffer_offset
-                ichar = self._buffer[0].find(separator, offset) + 1
+                size = -1
+                if seplen > 1 and chunk:
+                    # The separator may have begun at the end of the previous block.
+                    head = chunk[1 - seplen :]
+                    split = (
+                        head + self._buffer[0][offset : offset + seplen - 1]
+                    ).find(separator)
+                    if split >= 0:
+                        size = split + seplen - len(head)
+                if size == -1:
+                    ichar = self._buffer[0].find(separator, offset) + 1
+                    size = ichar - offset + seplen - 1 if ichar else -1
                 # Read from current offset to found separator or to the end.
-                data = self._read_nowait_chunk(
-                    ichar - offset + seplen - 1 if ichar else -1
-                )
+                data = self._read_nowait_chunk(size)
                 chunk += data
                 chunk_size += len(data)
-                if ichar:
+                if size != -1:
                     not_enough = False
 
                 if chunk_size > max_size:
